@@ -13,14 +13,14 @@ BUDGET = {"quick": 45, "thorough": 780}
 RULE = ("worlds with max_recompute in {None,1,2,3,7}, idle stretches, sessions finishing early, all parties; at some "
         "calls the party scribbles over every object it was handed; non-trivial = >=1 timer-only invocation and >=1 "
         "mutation fault; distinct = per-period history signature")
-PROBES = ["timer_only_call", "mutation", "session_finished_early_hidden", "third_period_pilots", "resumed", "paired_run",
+PROBES = ["aware_start", "aware_start_run_crosses_dst", "timer_only_call", "mutation", "session_finished_early_hidden", "third_period_pilots", "resumed", "paired_run",
           "arrival_this_period_seen", "departure_this_period_hidden", "infra_seen_after_reconfig", "custom_event_with_builtin", "mutate_then_crash", "scheduler_swapped_in_before_run"]
 FAULT_DIMENSION = ("party mutates handed SessionInfo / InfrastructureInfo / Constraint objects; scheduler crash + rerun; "
                    "operator changes a constraint limit between two periods (the scheduler must see the new, true limits)")
 ASSUMPTIONS = ["'handed' = argument of schedule(), results of active_sessions(), infrastructure_info(), get_constraints()",
                "truth for delivered energy/rates/pilots is the end-of-period tap of the previous period"]
 
-PROFILE = world.profile(reconfig=0.25, custom_events=0.25, faults={"mutate": 1.2, "crash": 0.3, "mutate_crash": 0.4}, resume_modes=["rerun"],
+PROFILE = world.profile(aware_start=0.25, reconfig=0.25, custom_events=0.25, faults={"mutate": 1.2, "crash": 0.3, "mutate_crash": 0.4}, resume_modes=["rerun"],
                         max_recompute=[None, 1, 2, 3, 7], horizon=(6, 36), chain_fill=(0.2, 0.8), b2b=0.3,
                         demand=(0.02, 1.2), party={"scripted": 4, "uncontrolled": 2, "greedy": 3, "rr": 1},
                         evse_kinds={"cont": 4, "dead": 2, "finite": 3})
@@ -55,6 +55,11 @@ def check(sc):
     period = sc["sim"]["period"]
     start = build_start(sc["sim"])
     ev = world.event_times(sc)
+    if sc["sim"].get("start_tz"):
+        out.probe("aware_start")
+        end_ = start + timedelta(minutes=period) * world.last_event_time(sc)
+        if start.tzinfo.normalize(end_).utcoffset() != start.utcoffset():
+            out.probe("aware_start_run_crosses_dst")
     exp_calls = world.call_periods(sc)
     done = [c for c in tr.calls if c.get("completed")]
     got = [c["t"] for c in done]
@@ -88,7 +93,10 @@ def check(sc):
         if c["now"] != t:
             out.add("C05/current_time", "call in period %d saw current_time %r" % (t, c["now"]))
         # (2 microseconds of slack: start + t x period is exact here up to the rounding of a fractional period to whole microseconds)
-        if abs(c["datetime"] - (start + timedelta(minutes=period) * t)) > timedelta(microseconds=2):
+        ref_dt = start + timedelta(minutes=period) * t
+        if (c["datetime"].tzinfo is None) != (ref_dt.tzinfo is None):
+            out.add("C05/current_datetime", "t=%d saw %r, expected %r (time-zone awareness differs from the start instant's)" % (t, c["datetime"], ref_dt))
+        elif abs(c["datetime"] - ref_dt) > timedelta(microseconds=2):   # aware values compare as instants
             out.add("C05/current_datetime", "t=%d saw %s expected %s" % (t, c["datetime"], start + timedelta(minutes=period) * t))
         prev = by_t.get(t - 1)
         prev_e = {}
